@@ -310,6 +310,54 @@ def as_constructed(run):
             run.violation("a freshly constructed shell is not unit-normalised", {"case": "constructed", "basis": [s.describe()], "signature": {"kind": "renormalise"}})
 
 
+def aliasing_histories(run, n=4):
+    """shell objects that share arrays — shallow copies of a shell, the shells `make_contractions` builds for one atom (one coordinate
+    array) — : a parameter update of one of them through the public setters, followed by assign_norm_cont, must not change the
+    others, nor the arrays the caller passed in, and the results of calls on the untouched objects must stay bitwise the same"""
+    import copy
+    from gbasis.integrals.kinetic_energy import kinetic_energy_integral
+    from gbasis.integrals.overlap import overlap_integral
+    from gbasis.parsers import make_contractions
+    rng = run.rng
+    ok = True
+    for k in range(n):
+        s = rand_shell(rng, rng.randint(0, 2), [], nprim=rng.randint(2, 3), nseg=rng.randint(1, 2), exp_lo=0.1, exp_hi=10.0)
+        a = s.make()
+        b = copy.copy(a)
+        before = snapshot_basis([a])
+        r_ov, r_ke = overlap_integral([a]).tobytes(), kinetic_energy_integral([a]).tobytes()
+        kind = ["exps", "coeffs", "coord"][k % 3]
+        if kind == "exps":
+            b.exps = b.exps * 1.44
+        elif kind == "coeffs":
+            b.coeffs = b.coeffs * np.linspace(0.5, 1.5, b.coeffs.shape[0])[:, None]
+        else:
+            b.coord = b.coord + np.array([0.5, -0.25, 1.0])
+        b.assign_norm_cont()
+        run.case(("alias-copy", kind, k))
+        run.count("aliasing: shallow copy updated (" + kind + ")")
+        if not same_basis([a], before) or overlap_integral([a]).tobytes() != r_ov or kinetic_energy_integral([a]).tobytes() != r_ke:
+            run.violation(f"updating ({kind}) and renormalising a shallow copy of a shell changed the original shell object",
+                          {"case": "alias", "kind": kind, "basis": [s.describe()], "signature": {"kind": "purity-alias"}})
+            ok = False
+        # shells of one atom from make_contractions share the atom's coordinate array
+        bd = {"H": [(0, np.array([1.2, 0.4]), np.array([[1.0], [0.5]])), (1, np.array([0.8]), np.array([[1.0]])), (2, np.array([0.6]), np.array([[1.0]]))]}
+        coords = np.array([[0.0, 0.25, -0.5], [0.5, 0.0, 1.4]])
+        coords0 = coords.copy()
+        basis = make_contractions(bd, ["H", "H"], coords, "spherical")
+        snap = snapshot_basis(basis)
+        basis[1].coord = basis[1].coord + np.array([0.25, 0.5, -0.125])        # move one shell through the setter
+        basis[1].assign_norm_cont()
+        run.case(("alias-make-contractions", k))
+        run.count("aliasing: make_contractions shells, one moved")
+        others_ok = all(same_basis([basis[i]], [snap[i]]) for i in range(len(basis)) if i != 1)
+        if not others_ok or coords.tobytes() != coords0.tobytes():
+            run.violation("moving one shell through the `coord` setter changed other shells of the basis or the caller's coordinate array",
+                          {"case": "alias", "kind": "make_contractions-coord", "signature": {"kind": "purity-alias"}})
+            ok = False
+    return ok
+
+
 def import_histories(run, n=4):
     """import calls in a history: parse, use / edit the result, parse again, rewrite the file, parse again (see c18.repeated_import_case)"""
     from checks import c18
@@ -325,10 +373,14 @@ def check(run):
     freshness(run)
     as_constructed(run)
     import_histories(run, 4 if quick else 24)
+    aliasing_histories(run, 3 if quick else 18)
 
 
 def replay(run, rep):
     n0 = len(run.violations)
+    if rep.get("case") == "alias":
+        aliasing_histories(run, 6)
+        return len(run.violations) == n0
     if rep.get("case") == "repeated-import":
         import_histories(run, 8)
         return len(run.violations) == n0
